@@ -35,6 +35,8 @@ const (
 	symFirstValid = iota
 	symFirstForeignNonce
 	symFirstForeignLong
+	symFirstPrefixNonce
+	symFirstEmptyNonce
 	symFirstMalformed
 	symFinalValid
 	symFinalOtherKey
@@ -49,7 +51,7 @@ const (
 	nSyms
 )
 
-var c15SymNames = []string{"server-first(valid)", "server-first(foreign nonce)", "server-first(foreign nonce, longer than any nonce seen so far)", "server-first(malformed)", "server-final(valid)",
+var c15SymNames = []string{"server-first(valid)", "server-first(foreign nonce)", "server-first(foreign nonce, longer than any nonce seen so far)", "server-first(nonce = proper prefix of the client nonce)", "server-first(empty nonce)", "server-first(malformed)", "server-final(valid)",
 	"server-final(other exchange/key)", "server-final(valid prefix, tampered tail)", "server-final(over empty state)", "server-final(empty verifier \"v=\")", "server-final(proper prefix of the genuine signature)", "empty challenge", "junk", "235", "535"}
 
 const (
@@ -205,6 +207,15 @@ func (s *c15Server) emit(sym int) (challenge []byte, code int) {
 		n := strings.Repeat("Zq9", (len(s.cnonce)+len(s.serverFirstSent))/3+8)
 		if len(s.cnonce) > 0 && s.cnonce[0] == 'Z' {
 			n = "Y" + n
+		}
+		sf := "r=" + n + ",s=" + b64(c15Salt) + ",i=64"
+		s.serverFirstSent, s.firstAnswered, s.validSig, s.firstExtends = sf, false, nil, false
+		return []byte(sf), 334
+	case symFirstPrefixNonce, symFirstEmptyNonce:
+		// a nonce that does not EXTEND the client nonce but is contained in it
+		n := ""
+		if sym == symFirstPrefixNonce && len(s.cnonce) > 4 {
+			n = s.cnonce[:len(s.cnonce)/2]
 		}
 		sf := "r=" + n + ",s=" + b64(c15Salt) + ",i=64"
 		s.serverFirstSent, s.firstAnswered, s.validSig, s.firstExtends = sf, false, nil, false
@@ -481,7 +492,7 @@ func init() {
 	vf.Register(&vf.Check{
 		ID: "C15", Title: "SCRAM authenticates the server",
 		Run: func(r *vf.Run) {
-			r.SetRule("every server message sequence up to length L over the 14-symbol alphabet {valid server-first, server-first with foreign/truncated nonce, server-first with an unrelated nonce longer than any seen so far, malformed server-first, valid server-final (genuine signature over whatever exchange is running), server-final of another exchange/key, server-final with valid prefix and tampered tail, server-final over empty state, server-final with an empty verifier, server-final with a proper prefix of the genuine signature, empty challenge, junk, 235, 535}, chosen on the fly after each client message, through smtp.Client.Auth on the synchronous connection, for SCRAM-SHA-1/-256 and both PLUS variants, with a fresh Auth object, with an Auth object that already completed a conforming exchange on an earlier connection (whose genuine server signature the server may replay), and with an Auth object that went through an earlier exchange which is itself explored over the alphabet (so it may have failed or been aborted at any point; an earlier exchange of up to L-2 and a judged exchange of up to L-1 server messages); reference automaton decides which successes are legitimate; distinct by (variant, sequence)")
+			r.SetRule("every server message sequence up to length L over the 16-symbol alphabet {valid server-first, server-first with foreign/truncated nonce, server-first with an unrelated nonce longer than any seen so far, server-first whose nonce is a proper prefix of the client nonce, server-first with an empty nonce, malformed server-first, valid server-final (genuine signature over whatever exchange is running), server-final of another exchange/key, server-final with valid prefix and tampered tail, server-final over empty state, server-final with an empty verifier, server-final with a proper prefix of the genuine signature, empty challenge, junk, 235, 535}, chosen on the fly after each client message, through smtp.Client.Auth on the synchronous connection, for SCRAM-SHA-1/-256 and both PLUS variants, with a fresh Auth object, with an Auth object that already completed a conforming exchange on an earlier connection (whose genuine server signature the server may replay), and with an Auth object that went through an earlier exchange which is itself explored over the alphabet (so it may have failed or been aborted at any point; an earlier exchange of up to L-2 and a judged exchange of up to L-1 server messages); reference automaton decides which successes are legitimate; distinct by (variant, sequence)")
 			r.Assume("PLUS variants run over a fabricated TLS 1.2 connection state (tls-unique); the real handshake is covered by C14", "password/user are ASCII")
 			maxLen0 := 5
 			if r.Thorough {
